@@ -216,6 +216,7 @@ type realmModel struct {
 	DefaultDomain               string
 	Nested                      string // "", "v4", "other", "other-with-kdc-like-key"
 	NestedAt                    int    // position among the lines
+	Interleave                  bool   // write the four kinds round-robin (last kind first) instead of grouped
 }
 
 func untilFinal(vals []string, defPort string) []string {
@@ -250,6 +251,26 @@ func (r realmModel) lines(l layout) []string {
 	}
 	if r.DefaultDomain != "" {
 		body = append(body, "  "+l.line("default_domain", r.DefaultDomain))
+	}
+	if r.Interleave {
+		body = nil
+		for i := 0; i < 4; i++ {
+			if i < len(r.Master) {
+				body = append(body, "  "+l.line("master_kdc", r.Master[i]))
+			}
+			if i < len(r.KPasswd) {
+				body = append(body, "  "+l.line("kpasswd_server", r.KPasswd[i]))
+			}
+			if i < len(r.Admin) {
+				body = append(body, "  "+l.line("admin_server", r.Admin[i]))
+			}
+			if i < len(r.KDC) {
+				body = append(body, "  "+l.line("kdc", r.KDC[i]))
+			}
+		}
+		if r.DefaultDomain != "" {
+			body = append(body, "  "+l.line("default_domain", r.DefaultDomain))
+		}
 	}
 	var nested []string
 	switch r.Nested {
@@ -414,6 +435,27 @@ func realmsCheck(c *engine.Ctx, ls []layout, evals *int64) {
 		m := portify(srv, "88")
 		m[pos] += "*"
 		models = append(models, realmModel{Name: "FINAL.MASTER", KDC: srv[:1], Master: m})
+	}
+	// all four kinds populated, the final marker on one kind at each position: the other kinds must be unaffected
+	for kind := 0; kind < 4; kind++ {
+		for pos := 0; pos < 3; pos++ {
+			m := realmModel{Name: fmt.Sprintf("FINAL.ISOLATION.K%d.P%d", kind, pos), KDC: append([]string{}, srv[:3]...), Admin: portify(srv[:3], "749"), KPasswd: portify(srv[:3], "464"), Master: portify(srv[:3], "88")}
+			switch kind {
+			case 0:
+				m.KDC[pos] += "*"
+			case 1:
+				m.Admin[pos] += "*"
+			case 2:
+				m.KPasswd[pos] += "*"
+			case 3:
+				m.Master[pos] += "*"
+			}
+			models = append(models, m)
+			mi := m
+			mi.Name += ".INTERLEAVED"
+			mi.Interleave = true
+			models = append(models, mi)
+		}
 	}
 	// nested blocks of each kind at each position
 	for _, kind := range []string{"v4", "other", "other-empty"} {
